@@ -197,13 +197,24 @@ func Apply(db dbm.DB, events []Event) {
 	}
 }
 
-// Equal reports whether two stores hold exactly the same key/value pairs; otherwise the first differing key.
-func Equal(a, b dbm.DB) (bool, string) {
+// Equal reports whether two stores hold exactly the same key/value pairs (keys for which skip returns true are
+// ignored); otherwise the first differing key.
+func Equal(a, b dbm.DB, skip func(key []byte) bool) (bool, string) {
 	ia, _ := a.Iterator(nil, nil)
 	ib, _ := b.Iterator(nil, nil)
 	defer ia.Close()
 	defer ib.Close()
-	for ia.Valid() && ib.Valid() {
+	adv := func(it dbm.Iterator) {
+		for it.Valid() && skip != nil && skip(it.Key()) {
+			it.Next()
+		}
+	}
+	for {
+		adv(ia)
+		adv(ib)
+		if !ia.Valid() || !ib.Valid() {
+			break
+		}
 		if !bytes.Equal(ia.Key(), ib.Key()) || !bytes.Equal(ia.Value(), ib.Value()) {
 			return false, fmt.Sprintf("%x / %x", ia.Key(), ib.Key())
 		}
@@ -218,6 +229,10 @@ func Equal(a, b dbm.DB) (bool, string) {
 	}
 	return true, ""
 }
+
+// IsEpochDbKey: keys of the validation ceremony's per-epoch database (its records are serialised from Go maps, so
+// their bytes differ between two runs of the same history).
+func IsEpochDbKey(k []byte) bool { return bytes.HasPrefix(k, []byte("epoch")) && len(k) >= 8 }
 
 // Prefixes are the tree prefixes currently registered under the global keys 0x01 / 0x02 / 0x03
 // (core/state/keys.go: currentStateDbPrefixKey, currentIdentityStateDbPrefixKey, preliminaryIdentityStateDbPrefixKey).
